@@ -11,6 +11,8 @@
      "compile-accepts" / "compile-rejects"   C04: the real Compile and the grammar disagree
      "outcome"                               observed outcome not in Outcomes (C01, C02, C07-C11, C16)
      "docmod"                                the document after the call differs from the document before (C06)
+     "reuse-accepts" / "reuse-rejects"       (op Parse: the text on ONE Parser object reused for the whole trace) the verdict
+                                             differs from the one the text alone determines (C13)
      "history"                               (same handle searched again) covered by "outcome": the allowed set
                                              is a function of (text, document) only (C13)
    Reported as drift (not a verdict): a real AST that differs structurally from the specification's ("ast"), a
@@ -54,10 +56,36 @@ TraceCompile ==
                           \cup (IF m[1] = "err" /\ ~real /\ ev.offset >= 0 /\ m[3] >= 0 /\ ev.offset # m[3] THEN {[line |-> l, why |-> "offset"]} ELSE {})
         /\ stats' = [stats EXCEPT !.events = @ + 1, !.unmodelled = @ + (IF m[1] = "unmodelled" THEN 1 ELSE 0)]
 
+(* the same text on a Parser object that has parsed every earlier text of the trace: the verdict (and, as drift, the
+   tree) is that of the text alone -- models[ev.h] was computed from the text at the Compile event of the same line pair *)
+TraceParse ==
+  /\ IsEvent("Parse")
+  /\ LET ev == Trace[l]
+         m == models[ev.h]
+         prev == Trace[l - 1]          \* the Compile event of the same text: a FRESH parser of the real code
+         paired == l > 1 /\ prev.op = "Compile" /\ prev.h = ev.h
+     IN /\ bad' = bad \cup (IF m[1] \in {"unmodelled"} THEN {}
+                            ELSE IF m[1] = "ok" /\ ~ev.ok THEN {[line |-> l, why |-> "reuse-rejects", allowed |-> "ok"]}
+                            ELSE IF m[1] = "err" /\ ev.ok THEN {[line |-> l, why |-> "reuse-accepts", allowed |-> "err"]}
+                            ELSE {})
+                      \* real against real: the reused parser and the fresh parser disagree on the verdict or on the tree
+                      \cup (IF paired /\ (prev.ok # ev.ok \/ (prev.ok /\ ev.ok /\ prev.ast # <<>> /\ ev.ast # <<>> /\ prev.ast # ev.ast))
+                            THEN {[line |-> l, why |-> "reuse-differs", allowed |-> "fresh"]} ELSE {})
+        /\ drift' = drift \cup (IF m[1] = "ok" /\ ev.ok /\ ev.ast # <<>> /\ AstFromJ(ev.ast) # m[2] THEN {[line |-> l, why |-> "reuse-ast"]} ELSE {})
+        /\ stats' = [stats EXCEPT !.events = @ + 1]
+  /\ UNCHANGED models
+
 ObsOutcome(ev) == IF ev.obs[1] = "ok" THEN Ok(FromJ(ev.obs[2])) ELSE <<ev.obs[1]>>
+RECURSIVE RefAsGo(_)
+RefAsGo(v) == CASE v[1] = "expref" -> <<"gotype", "jmespath.expRef">>
+                [] v[1] = "arr" -> <<"arr", [i \in 1..Len(v[2]) |-> RefAsGo(v[2][i])]>>
+                [] v[1] = "obj" -> <<"obj", {<<kv[1], RefAsGo(kv[2])>> : kv \in v[2]}>>
+                [] OTHER -> v
 AllowedHasOpaque(allowed) == \E o \in allowed : o[1] = "unspec" \/ (o[1] = "ok" /\ HasOpaque(o[2]))
 Member(o, allowed) == \/ o \in allowed
                       \/ (NUMORNULL \in allowed /\ o[1] = "ok" /\ o[2][1] \in {"num", "null"})
+                      \* an expression reference in the result: the library returns its own (non-JSON) expRef value
+                      \/ (o[1] = "ok" /\ \E a \in allowed : a[1] = "ok" /\ o[2] = RefAsGo(a[2]))
 
 TraceSearch ==
   /\ IsEvent("Search")
@@ -80,7 +108,7 @@ TraceDone == /\ l = Len(Trace) + 1
              /\ PrintT(<<"BAD", ToJson(bad)>>) /\ PrintT(<<"DRIFT", ToJson(drift)>>) /\ PrintT(<<"STATS", ToJson(stats)>>)
              /\ l' = l + 1 /\ UNCHANGED <<models, bad, drift, stats>>
 
-Next == TraceCompile \/ TraceSearch \/ TraceDone
+Next == TraceCompile \/ TraceParse \/ TraceSearch \/ TraceDone
 Spec == Init /\ [][Next]_vars
 TraceAccepted == TLCGet("stats").diameter = Len(Trace) + 2
 =============================================================================
